@@ -10,3 +10,4 @@ import BalmProofs.Props.C04
 #print axioms Balm.Impl.judgeStrict_sound
 #print axioms Balm.Props.C04.expandBlock_inv
 #print axioms Balm.Props.C04.expandASeeds_inv
+#print axioms Balm.Impl.judgeStrict_iff
